@@ -112,8 +112,15 @@ def check_props_module(module, log):
     return rc == 0, theorems, o
 
 
+def vdriver_exe():
+    """the model driver this check runs: its own copy (made under the Lean lock right after `lake build`, see
+    main.py), so that another check rebuilding the shared Lean project cannot pull it away mid-run"""
+    own = os.path.join(BIN, "vdriver")
+    return own if os.path.exists(own) else os.path.join(LEAN, ".lake", "build", "bin", "vdriver")
+
+
 def run_vdriver(lean_cases_path, out_path, log):
-    exe = os.path.join(LEAN, ".lake", "build", "bin", "vdriver")
+    exe = vdriver_exe()
     t0 = time.time()
     with open(lean_cases_path) as fin, open(out_path, "w") as fout:
         p = subprocess.run([exe], stdin=fin, stdout=fout, stderr=subprocess.PIPE, timeout=7200)
@@ -138,7 +145,7 @@ def big_stack():
 
 def run_vdriver_parallel(lean_cases_path, out_path, log, jobs=16):
     """split the case file into chunks and run several driver processes"""
-    exe = os.path.join(LEAN, ".lake", "build", "bin", "vdriver")
+    exe = vdriver_exe()
     lines = open(lean_cases_path).read().split("\n")
     lines = [l for l in lines if l]
     t0 = time.time()
